@@ -282,6 +282,120 @@ static void dict_cases(uint64_t *unit)
 				}
 }
 
+/* dictionary installed MID-STREAM: igzip_lib.h allows isal_deflate_set_dict / isal_deflate_reset_dict "after completing a SYNC_FLUSH
+ * or FULL_FLUSH and before the next call to isal_deflate". From that point on the dictionary is the history: the rest of the stream,
+ * decoded with the dictionary as preset history, must give the rest of the input, and no match may reach in front of the dictionary. */
+static void dict_midstream(uint64_t *unit)
+{
+	static const int alens[] = { 1, 300, 4001, 32768, 65535, 65536, 65537, 70000 };
+	static const int dlens[] = { 1, 100, 32768 };
+	static const int cpus[] = { CPU_BASE, CPU_AVX2, CPU_AVX512G2 };
+	static struct isal_dict *pd;
+	static uint8_t *A, *B;
+	if (!pd) {
+		pd = malloc(sizeof *pd);
+		A = malloc(70000);
+		B = malloc(6000);
+	}
+	char key[400], why[256];
+	fill_pattern(A, 70000, PAT_TEXT, 5);
+	for (unsigned ai = 0; ai < sizeof alens / sizeof alens[0]; ai++)
+		for (int di = 0; di < 3; di++)
+			for (int level = 0; level <= 3; level++)
+				for (int fl = 1; fl <= 2; fl++)
+					for (int ci = 0; ci < 3; ci++) {
+						if (!v_mine((*unit)++))
+							continue;
+						if (nfail > 30 || v_deadline_hit())
+							return;
+						int alen = alens[ai], dl = dlens[di];
+						fill_xorshift(DICT, dl, 4000 + di);
+						/* B: a run of zeros (hash buckets the dictionary never set), a reference into the dictionary tail, then noise */
+						size_t bl = 0;
+						memset(B, 0, 1500); bl = 1500;
+						int t = dl < 60 ? dl : 60;
+						memcpy(B + bl, DICT + dl - t, t); bl += t;
+						fill_xorshift(B + bl, 300, 17); bl += 300;
+						memcpy(B + bl, A, 200); bl += 200; /* content of part A: must NOT be referenced any more */
+						cpu_set_level(cpus[ci]);
+						size_t ol[2] = { 0, 0 }, off[2] = { 0, 0 };
+						uint8_t *outs[2] = { OUT, OUT2 };
+						int ok = 1;
+						for (int via = 0; via < 2 && ok; via++) {
+							struct isal_zstream *s = g_alloc(sizeof *s, G_END);
+							uint8_t *lb = level ? g_alloc(lvl_default[level], G_END) : NULL;
+							int r1 = -1000, rd = -1000, r2 = -1000;
+							snprintf(key, sizeof key, "dict-midstream after=%s first-part=%d dict len=%d level=%d cpu=%s via=%s", flush_name[fl], alen, dl, level, cpu_level_name[cpus[ci]], via ? "process_dict+reset_dict" : "set_dict");
+							if (V_TRY()) {
+								isal_deflate_init(s);
+								s->level = level; s->level_buf = lb; s->level_buf_size = level ? lvl_default[level] : 0;
+								s->flush = fl;
+								s->next_in = A; s->avail_in = alen; s->end_of_stream = 0;
+								s->next_out = outs[via]; s->avail_out = 200000;
+								r1 = isal_deflate(s);
+								off[via] = s->total_out;
+								if (r1 == COMP_OK && s->avail_in == 0 && s->internal_state.state == ZSTATE_NEW_HDR) {
+									if (via == 0)
+										rd = isal_deflate_set_dict(s, DICT, dl);
+									else {
+										memset(pd, 0xff, sizeof *pd);
+										rd = isal_deflate_process_dict(s, pd, DICT, dl);
+										if (rd == COMP_OK)
+											rd = isal_deflate_reset_dict(s, pd);
+									}
+									s->flush = NO_FLUSH;
+									s->next_in = B; s->avail_in = bl; s->end_of_stream = 1;
+									if (rd == COMP_OK)
+										r2 = isal_deflate(s);
+									ol[via] = s->total_out;
+								}
+								V_END();
+							} else {
+								v_violation(key, "%s", v_fault_desc());
+								nfail++;
+								ok = 0;
+							}
+							v_eval();
+							if (ok && (r1 != COMP_OK || rd != COMP_OK || r2 != COMP_OK || s->internal_state.state != ZSTATE_END)) {
+								v_violation(key, "first part %d, dictionary call %d, second part %d, state %d", r1, rd, r2, s->internal_state.state);
+								nfail++;
+								ok = 0;
+							}
+							if (ok && g_check()) {
+								v_violation(key, "%s", g_last_damage());
+								nfail++;
+								ok = 0;
+							}
+							g_reset();
+							if (!ok)
+								break;
+							/* first part: a byte-aligned prefix that decodes to A */
+							if (!verify_deflate_output(outs[via], off[via], IGZIP_DEFLATE, A, alen, 1, 0, NULL, 0, why, sizeof why)) {
+								v_violation(key, "first part (up to the flush): %s", why);
+								nfail++;
+								ok = 0;
+								break;
+							}
+							/* second part: decoded with the dictionary as the ONLY history */
+							if (!verify_deflate_output(outs[via] + off[via], ol[via] - off[via], IGZIP_DEFLATE, B, bl, 0, 0, DICT, dl, why, sizeof why)) {
+								v_violation(key, "part after the dictionary call, decoded with the dictionary as preset history: %s", why);
+								nfail++;
+								ok = 0;
+								break;
+							}
+							if (vs_res.max_reach_back)
+								v_count("midstream_streams_reaching_into_dictionary", 1);
+							v_count("midstream_dictionary_streams", 1);
+						}
+						if (ok && (ol[0] != ol[1] || memcmp(OUT, OUT2, ol[0]))) {
+							snprintf(key, sizeof key, "dict-midstream-processed after=%s first-part=%d dict len=%d level=%d cpu=%s", flush_name[fl], alen, dl, level, cpu_level_name[cpus[ci]]);
+							v_violation(key, "process_dict+reset_dict gives a different stream than set_dict (%zu vs %zu bytes)", ol[1], ol[0]);
+							nfail++;
+						}
+						v_nontrivial(v_mix(0x3d00 + ai * 16 + di, level * 16 + fl * 4 + ci));
+					}
+}
+
 /* wrong-state dictionary calls are refused and leave the context byte-identical */
 static void dict_refusals(void)
 {
@@ -398,6 +512,7 @@ int main(int argc, char **argv)
 	}
 	if (!v_part || !strcmp(v_part, "dict")) {
 		dict_cases(&unit);
+		dict_midstream(&unit);
 		if (v_shard == 0)
 			dict_refusals();
 	}
